@@ -149,10 +149,22 @@ def explore(graph: Graph, init_state, adapter: Adapter, run, *, nproc=None, budg
                     for v in adapter.variants:
                         jobs.append((f, lab, paths[f], v))
             if budget is not None and done + len(jobs) > budget:
+                # stratified by action name: rare actions are covered first, common ones share the rest
                 keep = max(0, budget - done)
                 skipped += len(jobs) - keep
                 rnd.shuffle(jobs)
-                jobs = jobs[:keep]
+                groups = defaultdict(list)
+                for j in jobs:
+                    groups[json.loads(j[1])[0]].append(j)
+                picked = []
+                while len(picked) < keep and groups:
+                    for name in sorted(groups):
+                        if len(picked) >= keep:
+                            break
+                        picked.append(groups[name].pop())
+                        if not groups[name]:
+                            del groups[name]
+                jobs = picked
             nxt = []
             for fkey, lab, status, t, detail, variant in pool.imap_unordered(_task, jobs, chunksize=8):
                 done += 1
